@@ -1,2 +1,14 @@
-// Package c11 holds the check for property C11.
+// Package c11 checks property C11 (access-control evaluation is sound, monotone
+// and counts each signer once; rule changes are judged against the rule on the
+// confirmed chain).
+//
+// Part A (eval.go): exhaustive enumeration of rules x nested rules x ordered
+// signer lists through aclutils.IdentifyAccount / CheckContractMethodPerm over a
+// map-backed AclManager, against a by-definition reference evaluator, plus
+// monotonicity on every (list, list plus one entry) pair.
+//
+// Part B (hist.go): every short history of SetAccountAcl / SetMethodAcl /
+// spend-from-account transactions and blocks on the real chain fixture with the
+// real $acl kernel contract and ACL manager, judged at State.VerifyTx against
+// the rule in force on the confirmed chain.
 package c11
